@@ -78,13 +78,18 @@ type c16Recorder struct {
 	mu      sync.Mutex
 	events  []c16Event
 	servers []*c16Server
+	sink    io.Writer // child process of c16.signal: every event is also written here, one per line
 }
 
 var c16rec = &c16Recorder{}
 
 func (r *c16Recorder) log(code string, gen, idx int) {
 	r.mu.Lock()
-	r.events = append(r.events, c16Event{len(r.events), code, gen, idx})
+	e := c16Event{len(r.events), code, gen, idx}
+	r.events = append(r.events, e)
+	if r.sink != nil {
+		io.WriteString(r.sink, e.String()+"\n")
+	}
 	r.mu.Unlock()
 }
 
